@@ -34,7 +34,8 @@ OUTSIDE = {"outside/secret.txt": "outside secret, never touch\n", "outside/dir/i
 
 def initial_trees():
     t = {}
-    t["plain"] = {"src/a.py": H + "a = 1\n", "src/sub/b.c": "int b;\n", "README.md": "readme\n", "LICENSES/MIT.txt": "mit\n", "docs/notes.txt": "notes\n",
+    t["plain"] = {"vendor/LICENSES/README": "licence texts of bundled third-party code (a directory that merely shares the name)\n",
+                  "src/a.py": H + "a = 1\n", "src/sub/b.c": "int b;\n", "README.md": "readme\n", "LICENSES/MIT.txt": "mit\n", "docs/notes.txt": "notes\n",
                   "src-old/c.py": "c = 1\n", "srcfile.py": "d = 1\n", "empty.txt": {"empty": True}, "img.png": {"hex": PNG_HEX},
                   "LICENSES/LicenseRef-x.txt": "the project's own custom licence\n", "vendor-texts/LicenseRef-x.txt": "a different text\n",
                   "vendor-texts/LicenseRef-y.txt": "text y\n", "legacy1.c": {"latin1": "/* J\xfcrgen */\nint a;\n"}, "old/legacy2.c": {"latin1": "/* caf\xe9 */\n"},
@@ -79,6 +80,8 @@ MENU = {
     "download-source-existing": (["download", "--source", "vendor-texts", "LicenseRef-x"], "."),
     "download-source-new": (["download", "--source", "vendor-texts/LicenseRef-y.txt", "LicenseRef-y"], "."),
     "download-existing": (["download", "MIT"], "."),
+    # the working directory is *a* directory called LICENSES, but not the project's
+    "download-from-foreign-licenses-dir": (["--root", "../..", "download", "ISC"], "vendor/LICENSES"),
     "download": (["download", "0BSD"], "."), "download-all": (["download", "--all"], "."), "download-o": (["download", "-o", "third-party/L.txt", "ISC"], "."),
 }
 READONLY = {"lint", "lint-json", "lint-lines", "lint-quiet", "lint-mp", "lint-file", "lint-from-src", "spdx", "supported-licenses", "help", "version", "annotate-help"}
